@@ -54,9 +54,13 @@ pub enum Mac {
     Org,
     /// a macro whose body calls the .org macro and then a plain one
     OrgOuter,
+    /// the "emit once" idiom: a body conditional on a flag the body itself defines
+    EmitOnce,
+    /// a body that may expand to nothing
+    Maybe,
 }
 
-const MACS: [Mac; 12] = [Mac::Dw, Mac::Scale, Mac::Regs, Mac::Ldd, Mac::Ten, Mac::Outer, Mac::Mid, Mac::Cond, Mac::Dseg, Mac::Eseg, Mac::Org, Mac::OrgOuter];
+const MACS: [Mac; 14] = [Mac::Dw, Mac::Scale, Mac::Regs, Mac::Ldd, Mac::Ten, Mac::Outer, Mac::Mid, Mac::Cond, Mac::Dseg, Mac::Eseg, Mac::Org, Mac::OrgOuter, Mac::EmitOnce, Mac::Maybe];
 
 enum BL {
     Text(&'static str),
@@ -78,11 +82,14 @@ impl Mac {
             Mac::Eseg => "m_eseg",
             Mac::Org => "m_org",
             Mac::OrgOuter => "m_orgouter",
+            Mac::EmitOnce => "m_once",
+            Mac::Maybe => "m_maybe",
         }
     }
     fn nparams(self) -> usize {
         match self {
-            Mac::Dw | Mac::Scale | Mac::Dseg | Mac::Eseg | Mac::Org | Mac::OrgOuter => 1,
+            Mac::Dw | Mac::Scale | Mac::Dseg | Mac::Eseg | Mac::Org | Mac::OrgOuter | Mac::Maybe => 1,
+            Mac::EmitOnce => 0,
             Mac::Ldd | Mac::Outer | Mac::Mid | Mac::Cond => 2,
             Mac::Regs => 3,
             Mac::Ten => 10,
@@ -114,6 +121,8 @@ impl Mac {
             ],
             // F6: bodies that switch segment and come back
             Mac::Dseg => vec![BL::Text("ldi r19, low(@0)"), BL::Text(".dseg"), BL::Text(".byte 2"), BL::Text(".cseg"), BL::Text("ldi r19, high(@0)")],
+            Mac::EmitOnce => vec![BL::Text(".ifndef ONCE_FLAG"), BL::Text(".define ONCE_FLAG"), BL::Text("ldi r26, 1"), BL::Text(".else"), BL::Text("ldi r26, 2"), BL::Text(".endif")],
+            Mac::Maybe => vec![BL::Text(".if @0 > 5"), BL::Text("ldi r27, low(@0)"), BL::Text(".endif")],
             Mac::Org => vec![BL::Text("ldi r24, 1"), BL::Text(".org @0"), BL::Text("ldi r24, low(@0)")],
             Mac::OrgOuter => vec![BL::Call(Mac::Org, &["@0"]), BL::Call(Mac::Dw, &["@0"]), BL::Text("ldi r25, 2")],
             Mac::Eseg => vec![BL::Text(".eseg"), BL::Text(".db @0"), BL::Text(".cseg"), BL::Text("ldi r20, low(@0)"), BL::Text(".eseg"), BL::Text(".db 0x33"), BL::Text(".cseg"), BL::Text("ldi r20, 0x44")],
@@ -290,6 +299,8 @@ impl MacModel {
         m.insert(Mac::Dseg, vec![vec![any[3].clone()], vec![any[23].clone()], vec![e("0x1234")]]);
         m.insert(Mac::Eseg, vec![vec![any[0].clone()], vec![any[24].clone()]]);
         // the argument of the .org macros is replaced by an increasing address at render time
+        m.insert(Mac::EmitOnce, vec![vec![]]);
+        m.insert(Mac::Maybe, vec![vec![e("0")], vec![e("9")], vec![e("(2+3)")]]);
         m.insert(Mac::Org, vec![vec![e("0")]]);
         m.insert(Mac::OrgOuter, vec![vec![e("0")]]);
         MacModel { argsets: m }
@@ -507,10 +518,50 @@ pub fn run(tier: Tier) -> i32 {
             }
         }
     });
+    // repetition: every family called 100 (thorough 300) times in one program, argument sets
+    // cycling, with a plain instruction and a call of another family at the end — state that
+    // leaks from one expansion into the next (a cache, a counter that is not reset) shows here
+    let reps = if tier.thorough() { 300 } else { 100 };
+    let mut n_rep = 0usize;
+    for mac in MACS {
+        for phase in 0..3usize {
+            let mut trace: Vec<Act> = MACS.iter().map(|m| Act::Def(*m, 0)).collect();
+            let nsets = m.argsets[&mac].len();
+            for i in 0..reps {
+                // phase 0: cycle through all argument sets; 1: always the first set (identical
+                // calls); 2: always the last one
+                let ai = match phase {
+                    0 => i % nsets,
+                    1 => 0,
+                    _ => nsets - 1,
+                };
+                trace.push(Act::Call(mac, ai, 0));
+            }
+            trace.push(Act::Plain);
+            trace.push(Act::Call(Mac::Dw, 2, 0));
+            let r = m.render(&trace);
+            n_rep += 1;
+            if let Some(expd) = &r.expanded {
+                let o1 = sut::build_str(&r.program);
+                let o2 = sut::build_str(expd);
+                let same = match (&o1, &o2) {
+                    (Outcome::Ok(a), Outcome::Ok(b)) => a.code == b.code && a.eeprom == b.eeprom && a.ram_filling == b.ram_filling,
+                    _ => false,
+                };
+                if !same {
+                    rep.violation(
+                        &format!("C09/repetition/family={:?}/arguments={}", mac, ["cycling", "identical-first", "identical-last"][phase]),
+                        || format!("{} calls of {} then a plain instruction and m_dw: the macro program gives {} but its hand expansion gives {}", reps, mac.name(), o1.to_json(), o2.to_json()),
+                        || json!({"kind": "build_str", "source": r.program, "hand_expanded_program": expd, "observed": o1.to_json()}),
+                    );
+                }
+            }
+        }
+    }
     let distinct = outcomes.lock().unwrap().len();
     rep.guard(n_ok.load(Ordering::Relaxed) > 1000 && n_err.load(Ordering::Relaxed) > 1000, "need both Ok and Err outcomes");
     rep.guard(distinct > 300, "fewer than 300 distinct observed images");
-    rep.guard(mac_use.lock().unwrap().len() >= 15, "not every macro family / feature was exercised");
+    rep.guard(mac_use.lock().unwrap().len() >= 17, "not every macro family / feature was exercised");
     for s in samples.into_inner().unwrap() {
         rep.sample(|| s);
     }
@@ -528,6 +579,8 @@ pub fn run(tier: Tier) -> i32 {
         "ok_outcomes": n_ok.load(Ordering::Relaxed),
         "err_outcomes": n_err.load(Ordering::Relaxed),
         "feature_use": *mac_use.lock().unwrap(),
+        "repetition_programs": n_rep,
+        "calls_per_repetition_program": reps,
         "trusted_base": ["semantic macro expander of the harness (value substitution of expression arguments)", "exprm::render for argument texts", "stateright 0.31 BFS"],
     }));
     rep.finish(coverage)
